@@ -18,6 +18,7 @@ ALIQUOTS_SLASH = [
     "NE/4", "NW/4", "SE/4", "SW/4", "N/2", "S/2", "E/2", "W/2",
     "N/2NE/4", "S/2SW/4", "E/2NW/4", "W/2SE/4", "NE/4NW/4", "SW/4SE/4",
     "S/2N/2NE/4", "E/2NE/4SW/4", "N/2S/2", "NW/4NE/4SE/4",
+    "E/2N/2NE/4", "N/2E/2", "NE/4N/2", "W/2S/2SW/4",
 ]
 ALIQUOTS_WORDS = [
     "Northeast Quarter", "North Half of the Southwest Quarter",
@@ -220,7 +221,7 @@ WITNESS = {
     "suppress_lot_divs": "T154N-R97W Sec 14: N/2 of Lot 1, NE/4",
     "ocr_scrub": "TlS4N-Rl0lW Sec 14: NE/4",   # unreadable unless scrubbed
     "segment": "T154N-R97W Sec 14: NE/4\nT155N-R97W W/2 of Section 15",
-    "qq_depth": "T154N-R97W Sec 14: S/2N/2NE/4, E/2NE/4SW/4",
+    "qq_depth": "T154N-R97W Sec 14: E/2N/2NE/4, S/2N/2NE/4, E/2NE/4SW/4",
     "qq_depth_min": "T154N-R97W Sec 14: S/2N/2NE/4, NW/4",
     "qq_depth_max": "T154N-R97W Sec 14: S/2N/2NE/4, E/2NE/4SW/4",
     "break_halves": "T154N-R97W Sec 14: S/2N/2NE/4, E/2NE/4SW/4",
@@ -233,9 +234,9 @@ TRACT_WITNESS = {
     "parse_qq": "Lots 1, 1, N/2NE/4",
     "clean_qq": "N/2 of Lot 1, NE NW, S/2N/2NE/4",
     "suppress_lot_divs": "N/2 of Lot 1, NE/4",
-    "qq_depth": "S/2N/2NE/4, E/2NE/4SW/4",
+    "qq_depth": "E/2N/2NE/4, S/2N/2NE/4, E/2NE/4SW/4",
     "qq_depth_min": "S/2N/2NE/4, NW/4",
-    "qq_depth_max": "S/2N/2NE/4, E/2NE/4SW/4",
+    "qq_depth_max": "S/2N/2NE/4, E/2NE/4SW/4, N/2E/2",
     "break_halves": "S/2N/2NE/4, E/2NE/4SW/4",
 }
 
